@@ -890,31 +890,116 @@ def check_hash_input_coverage(ck, R):
     unit = _CodeHasher(ck)
     outer, h, obj = unit.outer, unit.dig, unit.obj
     # what reaches the digest: everything the arguments of `<hasher>.update(...)` / `hashlib.sha256(...)` are computed from,
-    # followed through temporaries, through what is appended to / stored in a local in place, and through loops
-    ups = [c for c in h.calls("update") if isinstance(A.call_recv(c), ast.Name) and c.args and h.nodes(c)]
-    sinks = [(a_, h.nodes(c)[0]) for c in ups + [c for c in h.calls() if A.call_dotted(c) in ("hashlib.sha256", "sha256") and h.nodes(c)] for a_ in c.args]
-    ck.need(bool(sinks), "%s: no digest is fed (<hasher>.update(...) / hashlib.sha256(...))" % h.fi.name)
-    fed_nodes = _backward_slice(h, sinks, control_dependence=False)
+    # followed through temporaries, through what is appended to / stored in a local in place, through loops - and ACROSS the
+    # functions of the unit: a parameter is followed to what the calls bind to it (`update(chunk) for chunk in chunks` makes
+    # every argument of that helper an input of the digest), a call to what the callee returns (the attribute list may be
+    # built by one function and digested by another)
+    fas = {}
+
+    def fa_of(fi_):
+        if fi_.qual not in fas:
+            fas[fi_.qual] = h if fi_ is h.fi else (outer if fi_ is outer.fi else FA(ck, fi_))
+        return fas[fi_.qual]
+
+    unit_fis = [outer.fi] + [f_ for f_ in unit.funcs.values()]
+
+    def callee_of(fx, call):
+        if not isinstance(call.func, ast.Name):
+            return None
+        cur = fx.fi
+        while cur is not None:
+            if call.func.id in cur.nested:
+                return cur.nested[call.func.id]
+            cur = cur.parent
+        f_ = unit.funcs.get(call.func.id)
+        return f_ if f_ is not None and f_.parent is None else None
+
+    def bound_args(call, fi_, pname):
+        """the expressions a call binds to parameter `pname` of `fi_` (several for *args)"""
+        a_ = fi_.node.args
+        pos = [x.arg for x in a_.posonlyargs + a_.args]
+        if a_.vararg is not None and a_.vararg.arg == pname:
+            return [x.value if isinstance(x, ast.Starred) else x for x in call.args[len(pos):]]
+        if a_.kwarg is not None and a_.kwarg.arg == pname:
+            return [k.value for k in call.keywords if k.arg is None or k.arg not in pos + [x.arg for x in a_.kwonlyargs]]
+        v_ = A.arg_or_kw(call, pos.index(pname), pname) if pname in pos else A.kwarg(call, pname)
+        return [v_] if v_ is not None else []
+
+    def digest_sinks(fis):
+        out_ = []
+        for fi_ in fis:
+            fx = fa_of(fi_)
+            for c in [c for c in fx.calls("update") if isinstance(A.call_recv(c), ast.Name) and c.args and fx.nodes(c)] + \
+                     [c for c in fx.calls() if A.call_dotted(c) in ("hashlib.sha256", "sha256") and fx.nodes(c)]:
+                for a_ in c.args:
+                    out_.append((fx, a_, fx.nodes(c)[0]))
+        return out_
+
+    def unit_slice(todo):
+      fed_nodes, owner = {}, {}
+      done_seeds, done_params, done_calls = set(), set(), set()
+      while todo:
+          (fx, e_, at_) = todo.pop()
+          if (fx.qual, id(e_), at_) in done_seeds:
+              continue
+          done_seeds.add((fx.qual, id(e_), at_))
+          for (n, a_) in _slice_at(fx, [(e_, at_)], control_dependence=False).values():
+              if id(n) not in fed_nodes:
+                  fed_nodes[id(n)] = n
+                  owner[id(n)] = fx
+              if isinstance(n, ast.Name) and isinstance(n.ctx, ast.Load) and a_ is not None and n.id in fx.fi.params \
+                      and any(d.kind == "param" for d in fx.df.reaching(a_, n.id)) and (fx.qual, n.id) not in done_params and fx.fi is not outer.fi:
+                  done_params.add((fx.qual, n.id))
+                  for cfi in unit_fis:
+                      cx = fa_of(cfi)
+                      for c in cx.calls(fx.fi.name):
+                          if callee_of(cx, c) is fx.fi and cx.nodes(c):
+                              for v_ in bound_args(c, fx.fi, n.id):
+                                  todo.append((cx, v_, cx.nodes(c)[0]))
+              if isinstance(n, ast.Call) and (fx.qual, id(n)) not in done_calls:
+                  done_calls.add((fx.qual, id(n)))
+                  cf = callee_of(fx, n)
+                  if cf is not None:
+                      gx = fa_of(cf)
+                      for r in gx.returns():
+                          if r.value is not None and gx.nodes(r):
+                              todo.append((gx, r.value, gx.nodes(r)[0]))
+      return fed_nodes, owner
+
+    seeds0 = digest_sinks([f_ for f_ in unit_fis if f_ is not outer.fi])
+    ck.need(bool(seeds0), "%s: no digest is fed (<hasher>.update(...) / hashlib.sha256(...)) in the code hasher or the functions it is split into" % h.fi.name)
+    fed_nodes, owner = unit_slice(seeds0)
     consumed = {}
     narrowed = {}
     NARROWING = {"len", "bool", "hash", "set", "frozenset", "min", "max", "any", "all", "sum", "id", "type"}
 
     def node_of(n):
-        st = h.stmt_of(n)
-        ns = h.nodes(st) if st is not None else []
+        fx = owner.get(id(n), h)
+        st = fx.stmt_of(n) if fx.pm.get(n) is not None else None
+        ns = fx.nodes(st) if st is not None else []
         return ns[0] if ns else None
+
+    def code_param(n):
+        """the name that stands for the code object in the function node `n` belongs to (the digester, or a function that hands its
+        parameter on to it), else None"""
+        fx = owner.get(id(n))
+        return unit.entries.get(fx.fi.name) if fx is not None and unit.funcs.get(fx.fi.name) is fx.fi else None
 
     for n in fed_nodes.values():
         attrs = []
-        if isinstance(n, ast.Attribute) and isinstance(n.value, ast.Name) and n.value.id == obj and n.attr.startswith("co_"):
+        fx = owner[id(n)]
+        cp = code_param(n)
+        if cp is None:
+            continue
+        if isinstance(n, ast.Attribute) and isinstance(n.value, ast.Name) and n.value.id == cp and n.attr.startswith("co_"):
             attrs = [n.attr]
-        elif isinstance(n, ast.Call) and A.call_attr(n) == "getattr" and isinstance(n.func, ast.Name) and len(n.args) >= 2 and A.norm(n.args[0]) == obj:
+        elif isinstance(n, ast.Call) and A.call_attr(n) == "getattr" and isinstance(n.func, ast.Name) and len(n.args) >= 2 and A.norm(n.args[0]) == cp:
             # the attribute name: a literal, or a variable ranging over literals (table-driven)
-            nm_alts = _alternatives(h, n.args[1], node_of(n)) if node_of(n) is not None else [(n.args[1], None)]
+            nm_alts = _alternatives(fx, n.args[1], node_of(n)) if node_of(n) is not None else [(n.args[1], None)]
             attrs = [A.const_str(e) for (e, _a) in nm_alts if A.const_str(e)] if all(A.const_str(e) for (e, _a) in nm_alts) else []
         if not attrs:
             continue
-        par = h.pm.get(n)
+        par = fx.pm.get(n)
         if (isinstance(par, ast.Subscript) and par.value is n) or \
                 (isinstance(par, ast.Call) and isinstance(par.func, ast.Name) and par.func.id in NARROWING and n in par.args):
             # only a part / a summary of the attribute is hashed
@@ -935,7 +1020,8 @@ def check_hash_input_coverage(ck, R):
     # co_consts recursion: some iteration over <obj>.co_consts that maps EVERY element through the hasher itself (the
     # digester or a dispatcher in front of it; directly, or through a local lambda / def that does nothing but call the
     # hasher on its argument) reaches the digest - a comprehension, map(), or a list filled by one loop
-    def is_hasher_call(call, var, depth=0):
+    def is_hasher_call(call, var, depth=0, hx=None):
+        h = hx if hx is not None else unit.dig
         if not (isinstance(call, ast.Call) and call.args and isinstance(call.args[0], ast.Name) and call.args[0].id == var):
             return False
         f = call.func
@@ -946,16 +1032,16 @@ def check_hash_input_coverage(ck, R):
             for st in h.stmts(ast.Assign):
                 if any(isinstance(t, ast.Name) and t.id == f.id for t in st.targets) and isinstance(st.value, ast.Lambda) \
                         and st.value.args.args and isinstance(st.value.body, ast.Call):
-                    if is_hasher_call(st.value.body, st.value.args.args[0].arg, depth + 1):
+                    if is_hasher_call(st.value.body, st.value.args.args[0].arg, depth + 1, hx):
                         return True
             sub = h.fi.nested.get(f.id)
             if sub is not None and sub.params:
                 rets = [x for x in A.walk_body(sub.node) if isinstance(x, ast.Return)]
-                if len(rets) == 1 and len(A.sig_stmts(sub.node.body)) == 1 and is_hasher_call(rets[0].value, sub.params[0], depth + 1):
+                if len(rets) == 1 and len(A.sig_stmts(sub.node.body)) == 1 and is_hasher_call(rets[0].value, sub.params[0], depth + 1, hx):
                     return True
         return False
 
-    def is_hasher_ref(f):
+    def is_hasher_ref(f, hx=None):
         """a one-argument callable that applies the hasher to its argument (for map())"""
         if isinstance(f, ast.Name) and f.id in unit.entries:
             fi_ = unit.funcs[f.id]
@@ -963,26 +1049,29 @@ def check_hash_input_coverage(ck, R):
             required = [x.arg for x in a_.posonlyargs + a_.args][: len(a_.posonlyargs + a_.args) - len(a_.defaults)]
             return required == [unit.entries[f.id]]
         if isinstance(f, ast.Lambda) and len(f.args.args) == 1 and isinstance(f.body, ast.Call):
-            return is_hasher_call(f.body, f.args.args[0].arg)
+            return is_hasher_call(f.body, f.args.args[0].arg, hx=hx)
         return False
 
     rec = False
     for n in fed_nodes.values():
         spec = None
-        if isinstance(n, (ast.ListComp, ast.GeneratorExp)) or (isinstance(n, ast.Name) and isinstance(n.ctx, ast.Load) and h.df.is_local(n.id) and n.id not in h.fi.params):
+        hx, cp = owner[id(n)], code_param(n)
+        if cp is None:
+            continue
+        if isinstance(n, (ast.ListComp, ast.GeneratorExp)) or (isinstance(n, ast.Name) and isinstance(n.ctx, ast.Load) and hx.df.is_local(n.id) and n.id not in hx.fi.params):
             at_ = node_of(n)
-            spec = _collection_spec(h, n, at_) if at_ is not None else None
-        if spec is not None and not spec["atoms"] and h.xnorm(spec["iter"], spec["iter_at"]) == obj + ".co_consts" and is_hasher_call(spec["elt"], spec["var"]):
+            spec = _collection_spec(hx, n, at_) if at_ is not None else None
+        if spec is not None and not spec["atoms"] and hx.xnorm(spec["iter"], spec["iter_at"]) == cp + ".co_consts" and is_hasher_call(spec["elt"], spec["var"], hx=hx):
             rec = True
         if isinstance(n, ast.Call) and isinstance(n.func, ast.Name) and n.func.id == "map" and len(n.args) == 2 and node_of(n) is not None \
-                and h.xnorm(n.args[1], node_of(n)) == obj + ".co_consts" and is_hasher_ref(n.args[0]):
+                and hx.xnorm(n.args[1], node_of(n)) == cp + ".co_consts" and is_hasher_ref(n.args[0], hx=hx):
             rec = True
     ck.ob(R, h.key(None, "consts-recursive"), rec, "constants are hashed recursively (nested functions, lambdas, comprehensions)" if rec else
           "co_consts is not hashed through the hasher itself: edits inside nested code objects are invisible", h.where())
     # salt / environment
     def fed(param):
         """something that stands for fn_code_hash's parameter `param` reaches the digest"""
-        return any(isinstance(x, ast.Name) and isinstance(x.ctx, ast.Load) and unit.stands_for(h.fi, x.id) == param for x in fed_nodes.values())
+        return any(isinstance(x, ast.Name) and isinstance(x.ctx, ast.Load) and unit.stands_for(owner[id(x)].fi, x.id) == param for x in fed_nodes.values())
 
     ok_env = fed("environment") and fed("salt")
     ck.ob(R, h.key(None, "salt-and-environment"), ok_env, "salt and environment feed the digest" if ok_env else
@@ -998,11 +1087,20 @@ def check_hash_input_coverage(ck, R):
         for attr in FUNC_RELEVANT:
             if isinstance(n, ast.Call) and _helper_reads_attr(outer, n, attr) is not None:
                 got.add(attr)
+    fed_all = ret_all = None
     for attr, why in FUNC_RELEVANT.items():
         ok = attr in got
         if ok:
             # it is fed to a digest whose value is returned
             ok = _digest_fed_and_returned(outer, lambda arg, at, attr=attr: _reads_attr(outer, arg, attr, at))
+            if not ok:
+                # ... the digest may be fed by a helper of the unit (`result = _mix(result, (defaults, kwdefaults))`): the read is among
+                # what reaches some digest of the unit, and among what the returned value is made from
+                if fed_all is None:
+                    fed_all = unit_slice(digest_sinks(unit_fis))[0]
+                    ret_all = unit_slice([(outer, r.value, outer.nodes(r)[0]) for r in outer.returns() if r.value is not None and outer.nodes(r)])[0]
+                ok = any(i_ in ret_all and outer.pm.get(n_) is not None and (_attr_read_subject(n_, attr) is not None or _helper_reads_attr(outer, n_, attr) is not None)
+                         for (i_, n_) in fed_all.items())
         ck.ob(R, outer.key(None, attr), ok, "%s reaches the digest" % attr if ok else
               "%s (%s) is not part of the code hash: editing a default value keeps the version, and a stale result is served" % (attr, why), outer.where())
     # every return of a code-based hash passes the reads of the defaults (no early exit, e.g.
@@ -1995,10 +2093,31 @@ def check_descent_complete(ck, R):
             ck.ob(R, fx.key(c, "args"), okc, "the same result set / root / scope are passed down" if okc else
                   "the descent does not pass down (result, root_fn, package_scope)", fx.where(c))
     ck.need(n_tests >= 2, "_visit_dependency: `if rule is not None` sites not found")
+    # the function that offers a symbol to the rule strategies, found by WHAT IT DOES (it calls try_resolve): the function nested in
+    # _visit_dependency, or a method of the class that _visit_dependency was split into (the blacklist is then one of its parameters)
     rs = None
     for fx in unit:
         rs = rs or fx.fi.nested.get("resolve_symbol")
-    ck.need(rs is not None, "_visit_dependency.resolve_symbol not found")
+    BL = "blacklist"
+    if rs is None:
+        def _calls_try_resolve(fi_):
+            return any(A.call_attr(c) == "try_resolve" for c in A.body_calls(fi_.node))
+        cands = [n_ for fx in unit for n_ in fx.fi.nested.values() if _calls_try_resolve(n_)] + [fx.fi for fx in unit[1:] if _calls_try_resolve(fx.fi)]
+        ck.need(len(cands) == 1, "_visit_dependency: expected one function (nested in it, or a method of HashRule it calls) that offers the symbol to the rule "
+                                 "strategies (calls try_resolve), found %d" % len(cands))
+        rs = cands[0]
+        if rs.parent is None:
+            # which parameter receives the blacklist: what the call sites in the unit bind the traversal's blacklist to
+            got = set()
+            for fx in unit:
+                for c in fx.calls(rs.name):
+                    ps = [p_ for p_ in rs.params if not (p_ in ("self", "cls") and not rs.is_static)]
+                    for i_, p_ in enumerate(ps):
+                        a_ = A.arg_or_kw(c, i_, p_)
+                        if a_ is not None and fx.nodes(c) and fx.xnorm(a_, fx.nodes(c)[0]) == "blacklist":
+                            got.add(p_)
+            ck.need(len(got) == 1, "%s: the parameter that receives the blacklist could not be determined" % rs.qual)
+            BL = next(iter(got))
     rsa = FA(ck, rs)
     # every decision resolve_symbol takes is either "is the object (identically) one of the blacklist" or
     # "did this strategy resolve it": each branch test is classified by what it compares, whatever the loop /
@@ -2009,7 +2128,7 @@ def check_descent_complete(ck, R):
 
     def over_blacklist(name, at):
         """Is `name` a loop variable ranging over the blacklist?"""
-        return any(d.kind == "for" and d.value is not None and rsa.xnorm(d.value, d.node) == "blacklist" for d in rsa.df.reaching(at, name))
+        return any(d.kind == "for" and d.value is not None and rsa.xnorm(d.value, d.node) == BL for d in rsa.df.reaching(at, name))
 
     def classify(t_, at):
         if isinstance(t_, ast.UnaryOp) and isinstance(t_.op, ast.Not):
@@ -2019,7 +2138,7 @@ def check_descent_complete(ck, R):
             return "<try_resolve result> is not None"
         if isinstance(t_, ast.Call) and A.norm(t_.func) == "any" and len(t_.args) == 1 and isinstance(t_.args[0], (ast.GeneratorExp, ast.ListComp)) \
                 and len(t_.args[0].generators) == 1 and isinstance(t_.args[0].generators[0].target, ast.Name) and not t_.args[0].generators[0].ifs \
-                and rsa.xnorm(t_.args[0].generators[0].iter, at) == "blacklist" and isinstance(t_.args[0].elt, ast.Compare) and len(t_.args[0].elt.ops) == 1 \
+                and rsa.xnorm(t_.args[0].generators[0].iter, at) == BL and isinstance(t_.args[0].elt, ast.Compare) and len(t_.args[0].elt.ops) == 1 \
                 and isinstance(t_.args[0].elt.ops[0], ast.Is) and {A.norm(t_.args[0].elt.left), A.norm(t_.args[0].elt.comparators[0])} - {t_.args[0].generators[0].target.id} \
                 <= params and len({A.norm(t_.args[0].elt.left), A.norm(t_.args[0].elt.comparators[0])}) == 2:
             return "<blacklist identity>"
@@ -2042,7 +2161,7 @@ def check_descent_complete(ck, R):
         elif at_ is None:
             # a literal made up on the path: judged by its text alone
             names = {x.id for x in ast.walk(e_) if isinstance(x, ast.Name)}
-            loops_bl = {x.ast.target.id for x in rsa.cfg.nodes if x.kind == "for" and isinstance(x.ast.target, ast.Name) and rsa.xnorm(x.ast.iter, x.id) == "blacklist"}
+            loops_bl = {x.ast.target.id for x in rsa.cfg.nodes if x.kind == "for" and isinstance(x.ast.target, ast.Name) and rsa.xnorm(x.ast.iter, x.id) == BL}
             if isinstance(e_, ast.Compare) and len(e_.ops) == 1 and isinstance(e_.ops[0], ast.Is) and A.is_none(e_.comparators[0]) \
                     and any(isinstance(x, ast.Call) and A.call_attr(x) == "try_resolve" for x in ast.walk(e_.left)):
                 tests.append("<try_resolve result> is not None")
@@ -2060,7 +2179,7 @@ def check_descent_complete(ck, R):
         for c_ in (A.walk_local(st_) if rsa.nodes(st_) and not isinstance(st_, (ast.If, ast.For, ast.While, ast.Try, ast.With)) else []):
             if isinstance(c_, (ast.GeneratorExp, ast.ListComp)) and len(c_.generators) == 1 and any(isinstance(t, ast.Call) and A.call_attr(t) == "try_resolve" for t in ast.walk(c_)):
                 scans.append((c_.generators[0].iter, rsa.nodes(st_)[0]))
-    others = [x for x in rsa.cfg.nodes if x.kind == "for" and x not in lp and rsa.xnorm(x.ast.iter, x.id) != "blacklist"]
+    others = [x for x in rsa.cfg.nodes if x.kind == "for" and x not in lp and rsa.xnorm(x.ast.iter, x.id) != BL]
     from_strategy = any(r_.value is not None and rsa.nodes(r_) and "call:try_resolve" in rsa.df.deps(r_.value, rsa.nodes(r_)[0]) for r_ in rsa.returns())
     okb = okb and len(scans) == 1 and rsa.xnorm(scans[0][0], scans[0][1]) == "HashRule.all_rules" and not others and not rsa.stmts(ast.While) and from_strategy
     ck.ob(R, rsa.key(None, "blacklist-by-identity"), okb, "symbols are excluded only by blacklist identity; all rule strategies are tried" if okb else
@@ -2194,6 +2313,68 @@ def check_enforcement(ck, R):
 
 
 # --------------------------------------------------------------------------------- C14.R3 (K1)
+def _value_text(fa, v, at_ast):
+    """Text of a value for an obligation key, independent of how it is spelt: locals replaced by what they were assigned
+    (a temporary hoisted in front of the call reads like the expression in place; one assigned in both arms of an `if`, or
+    re-assigned under `if not <itself>`, reads like the conditional expression it spells out), `x if x else y` read as `x or y`."""
+    import copy
+    ns = fa.nodes(at_ast)
+
+    def value_of(name, at, depth):
+        ds = [d for d in fa.df.reaching(at, name)]
+        if depth <= 0 or not ds:
+            return None
+        if len(ds) == 1:
+            d = ds[0]
+            return subst(d.value, d.node, depth - 1) if d.kind == "assign" and d.value is not None else None
+        if len(ds) == 2:
+            for (a, b) in (ds, ds[::-1]):
+                if a.kind != "assign" or a.value is None or a.stmt is None:
+                    continue
+                par = fa.pm.get(a.stmt)
+                if not isinstance(par, ast.If) or not fa.nodes(par.test):
+                    continue
+                tn = fa.nodes(par.test)[0]
+                if b.kind == "assign" and b.value is not None and b.stmt is not None and fa.pm.get(b.stmt) is par and a.stmt in par.body and b.stmt in par.orelse:
+                    return ast.IfExp(test=subst(par.test, tn, depth - 1), body=subst(a.value, a.node, depth - 1), orelse=subst(b.value, b.node, depth - 1))
+                if a.stmt in par.body and not par.orelse and {(x.node, x.name) for x in fa.df.reaching(tn, name)} == {(b.node, b.name)}:
+                    old = ast.Name(id=name, ctx=ast.Load()) if b.kind == "param" else (subst(b.value, b.node, depth - 1) if b.kind == "assign" and b.value is not None else None)
+                    if old is None:
+                        continue
+                    # `if T: name = new` after `name = old`  ==  new if T else old
+                    return ast.IfExp(test=subst(par.test, tn, depth - 1), body=subst(a.value, a.node, depth - 1), orelse=old)
+        return None
+
+    def subst(e, at, depth):
+        class S(ast.NodeTransformer):
+            def visit_Name(self, n):
+                if isinstance(n.ctx, ast.Load) and fa.df.is_local(n.id):
+                    got = value_of(n.id, at, depth)
+                    if got is not None:
+                        return got
+                return n
+
+            def visit_Lambda(self, n):
+                return n
+        return S().visit(copy.deepcopy(e))
+
+    class T(ast.NodeTransformer):
+        def visit_IfExp(self, n):
+            self.generic_visit(n)
+            t_, b_, o_ = n.test, n.body, n.orelse
+            if isinstance(t_, ast.UnaryOp) and isinstance(t_.op, ast.Not):
+                t_, b_, o_ = t_.operand, o_, b_
+            if A.norm(t_) == A.norm(b_):
+                vals = [b_] + (list(o_.values) if isinstance(o_, ast.BoolOp) and isinstance(o_.op, ast.Or) else [o_])
+                return ast.copy_location(ast.BoolOp(op=ast.Or(), values=vals), n)
+            return n
+    try:
+        ex = subst(v, ns[0], 6) if ns else copy.deepcopy(v)
+        return A.norm(ast.fix_missing_locations(T().visit(ex)))
+    except RecursionError:
+        return A.norm(v)
+
+
 def check_version_taint(ck, R):
     ck.rule(R, "a computed version never becomes a declared version: no value derived from version() / "
                "_calculated_version / _recompute_version() flows into the `version=` parameter of the MementoFunction "
@@ -2213,7 +2394,7 @@ def check_version_taint(ck, R):
             ck.ob(R, fa.qual + "::MementoFunction(version=)::unrefreshed", False,
                   "the clone's version is taken from self._calculated_version without going through version(): after a tracked variable changed, "
                   "a modifier clone created before the next query keeps the old version and serves old results", fa.where(call))
-        ck.ob(R, fa.qual + "::MementoFunction(version=%s)" % A.norm(v), not tainted,
+        ck.ob(R, fa.qual + "::MementoFunction(version=%s)" % _value_text(fa, v, call), not tainted,
               "the declared-version slot receives only a declared version" if not tainted else
               "the clone is constructed with version=<computed version> (%s): it counts as explicitly versioned, so dependency "
               "enforcement is skipped for calls it makes and its version is pinned when dependencies are redefined" % A.short(v, 50), fa.where(call))
@@ -4567,6 +4748,7 @@ def check_variable_kinds_described(ck, R):
     tuple - and dictionary keys, which JSON writes as strings): the serialisation has to describe those kinds itself (D41)."""
     ck.rule(R, "kinds of value the argument codec conflates (tuple / list, non-string dictionary keys) are described in a tracked variable's hash", 2)
     enc = FA(ck, "serialization.MementoCodec.encode_arg")
+    KINDS = ("list", "tuple", "set", "frozenset", "dict")
     groups = []
     for nd in enc.cfg.nodes:
         if nd.kind != "test":
@@ -4576,9 +4758,59 @@ def check_variable_kinds_described(ck, R):
             it = A.isinstance_types(atom)
             if it and it[0] == (enc.fi.params[1] if len(enc.fi.params) > 1 else "obj"):
                 tys |= set(it[1])
-        builtin = {t for t in tys if t in ("list", "tuple", "set", "frozenset", "dict")}
+        builtin = {t for t in tys if t in KINDS}
         if len(builtin) >= 2:
             groups.append(builtin)
+    if not groups:
+        # the ladder may have been split over methods of the codec / functions of the module, or turned into a dispatch table
+        # scanned with isinstance: the kinds one branch takes together are then one test of a helper on its parameter, or one
+        # entry of a table the unit reads
+        emod = enc.fi.module
+        ecls = enc.fi.cls
+        unit_fis, seen_f, work = [enc.fi], {enc.fi.qual}, [enc.fi]
+        while work:
+            cur = work.pop()
+            for c in ast.walk(cur.node):
+                if not isinstance(c, ast.Call):
+                    continue
+                f_ = None
+                if isinstance(c.func, ast.Name):
+                    f_ = cur.nested.get(c.func.id) or emod.functions.get(c.func.id)
+                elif isinstance(c.func, ast.Attribute) and isinstance(c.func.value, ast.Name) and ecls is not None \
+                        and c.func.value.id in ("cls", "self", ecls.name) and c.func.attr in ecls.methods:
+                    f_ = ecls.methods[c.func.attr]
+                if f_ is not None and f_.qual not in seen_f:
+                    seen_f.add(f_.qual)
+                    unit_fis.append(f_)
+                    work.append(f_)
+        for f_ in unit_fis:
+            for x in ast.walk(f_.node):
+                if isinstance(x, (ast.If, ast.While, ast.IfExp)):
+                    tys = set()
+                    for atom in A.test_atoms(x.test):
+                        it = A.isinstance_types(atom)
+                        if it and it[0] in f_.params:
+                            tys |= set(it[1])
+                    builtin = {t for t in tys if t in KINDS}
+                    if len(builtin) >= 2 and builtin not in groups:
+                        groups.append(builtin)
+        tables = {}
+        for st in emod.tree.body + (list(ecls.node.body) if ecls is not None else []):
+            if isinstance(st, (ast.Assign, ast.AnnAssign)) and st.value is not None:
+                for t_ in (st.targets if isinstance(st, ast.Assign) else [st.target]):
+                    if isinstance(t_, ast.Name):
+                        tables[t_.id] = st.value
+        read = {x.id for f_ in unit_fis for x in ast.walk(f_.node) if isinstance(x, ast.Name) and x.id in tables} | \
+               {x.attr for f_ in unit_fis for x in ast.walk(f_.node) if isinstance(x, ast.Attribute) and x.attr in tables and isinstance(x.value, ast.Name)
+                and x.value.id in ("cls", "self", ecls.name if ecls is not None else "")}
+        scanned = any(isinstance(x, ast.Call) and isinstance(x.func, ast.Name) and x.func.id == "isinstance" and len(x.args) == 2 and isinstance(x.args[1], ast.Name)
+                      for f_ in unit_fis for x in ast.walk(f_.node))
+        for nm_ in sorted(read) if scanned else []:
+            for x in ast.walk(tables[nm_]):
+                if isinstance(x, ast.Tuple) and x.elts and all(isinstance(e_, ast.Name) for e_ in x.elts):
+                    builtin = {e_.id for e_ in x.elts if e_.id in KINDS}
+                    if len(builtin) >= 2 and builtin not in groups:
+                        groups.append(builtin)
     ck.need(bool(groups), "encode_arg: no isinstance group of container kinds found (list / tuple)")
     sv = FA(ck, CH + ".GlobalVariableHashRule._serialize_value")
     unit = _class_unit(ck, sv)
